@@ -65,7 +65,8 @@ CRASH = {
  'variable-then-function': ('F is 9001\nF takes X\ngive back X\n\nsay F\n', {'n1': {}}),
  'array-function-arg': ('F takes L\nRoll L into H\ngive back H\n\nsay F taking 9001\nRock Arr\nsay F taking Arr\n', {'n1': {}}),
 }
-BOUNDS = {'programs': '%d crash-oriented templates + the templates of C04 / C05 / C08 (%d), each parsed by the real parser; every placeholder is any double / any string' % (len(CRASH), len(C04.TEMPLATES) + len(C05.T) + len(C08.T)),
+BOUNDS = {'generated programs': 'kind x statement matrix: X of every kind {undefined name, mysterious, null, boolean, number, string, array with list and dictionary part, empty array, function} x 40 one-operand statement / expression forms + 38 two-operand forms with the other operand of kind {number, string, array, null} (1728 programs); numbers any double (an operand used as index / repeat count: <= 3, >= 6e17 or NaN -- values in between only allocate), strings any opaque string and, in a second run, a bounded string of 0..=1 (thorough 2) symbolic characters incl. multi-byte ones; poetic number literals of 1..=40 (thorough 120) words with 4 dot placements',
+          'programs': '%d crash-oriented templates + the templates of C04 / C05 / C08 (%d), each parsed by the real parser; every placeholder is any double / any string' % (len(CRASH), len(C04.TEMPLATES) + len(C05.T) + len(C08.T)),
           'edges': 'panic, debug assertion, unreachable!, unimplemented!, MIR overflow / bounds asserts, RefCell double borrow, unwrap on None / Err, unchecked_unwrap on None / Err, unreachable_unchecked, and rendering (Display) of every runtime error produced',
           'inventory': 'every crash site of the interpreter modules in the MIR is listed; the function containing it must have been executed by some harness path, otherwise the check is inconclusive'}
 OUTSIDE = ['programs outside the templates (the inventory bounds what can be missed to crash sites whose *function* was executed but whose edge needs a state no template reaches)', 'stack exhaustion, allocation failure (resource bounds)']
@@ -115,9 +116,74 @@ def crash_sites(mir):
     return sites
 
 
+def sym_short_string(vm, name, nmax=2):
+    """bounded string of 0..=nmax symbolic characters; classes: digit / ASCII letter / blank / other ASCII / 2-, 3-, 4-byte members of R"""
+    from .lexcommon import R_BY_WIDTH
+    from ..strings import BStr, Buf
+    from .. import chartab
+    n = vm.fork(nmax + 1, note=f'{name}.len')
+    cps, ws = [], []
+    for i in range(n):
+        c = z3.BitVec(f'{name}.c{i}', 32); vm.keep.append(c)
+        k = vm.fork(7, note=f'{name}.class{i}')
+        if k == 0: vm.assume(chartab.is_ascii_digit(c)); w = 1
+        elif k == 1: vm.assume(chartab.is_ascii_alphabetic(c)); w = 1
+        elif k == 2: vm.assume(chartab.is_ascii_whitespace(c)); w = 1
+        elif k == 3: vm.assume(z3.And(z3.ULT(c, 128), z3.Not(chartab.is_ascii_alphanumeric(c)), z3.Not(chartab.is_ascii_whitespace(c)))); w = 1
+        else:
+            w = k - 2; ms = R_BY_WIDTH[w]
+            vm.assume(z3.Or(*[c == m for m in ms]) if len(ms) > 1 else c == ms[0]); vm.domains[c.get_id()] = set(ms)
+        if not hasattr(vm, 'cp_width'): vm.cp_width = {}
+        vm.cp_width[c.get_id()] = w
+        cps.append(c); ws.append(w)
+    return BStr(Buf(cps, ws))
+
+
+def h_kind(vm, mir, chunk, bounded):
+    i = vm.fork(len(chunk), note='shape') if len(chunk) > 1 else 0
+    text, spec = chunk[i][0], chunk[i][1]
+    holes = {}
+    for k in spec:
+        if k.startswith('n'):
+            holes[k] = x = num_hole(vm, k)
+            # the second operand may be an index / repeat count: values whose only effect is a huge allocation are outside the property (resource bounds)
+            if k == 'n3' or spec[k].get('index'): vm.assume(z3.Or(z3.fpLEQ(x, z3.FPVal(3.0, F64)), z3.fpGEQ(x, z3.FPVal(6e17, F64)), z3.fpIsNaN(x)))
+        elif bounded:
+            if k == 's1': holes[k] = sym_short_string(vm, k, 1 if getattr(vm, 'tier', 'quick') == 'quick' else 2)
+            else: holes[k] = bstr_from_py(['', '1', 'a,'][vm.fork(3, note=k)])
+        else: holes[k] = SymStr(str_hole(vm, k))
+    stdin = [(str_hole(vm, f'line{j}'), True) for j in range(1)] if 'isten' in text else []
+    prog = instantiate(vm, mir, program_of_shape(mir, chunk[i]), holes)
+    d0 = describe_holes({k: (h if not isinstance(h, BStr) else SymStr(to_sym(h))) for k, h in holes.items()}, stdin)
+    vm.describe = lambda m: dict(d0(m), program=text)
+    lines = [SymStr(z3.Concat(t, zs('\n'))) for t, _ in stdin]
+    try: res, odata, idata = exec_in_vm(vm, mir, prog, lines)
+    except Unmodelled as e:
+        if bounded or 'opaque symbolic string' not in str(e): raise
+        vm.witness = {'run-done', 'deferred-to-bounded-strings'}       # character-level string work: decided by the bounded-string job of the same shape
+        return None
+    res = conc(vm, res)
+    if res.variant == 1:
+        from ..std_fmt import display_to_string
+        display_to_string(vm, 'RuntimeError', R(res.fields[0]))
+        vm.witness = {'run-done', 'error-rendered'}
+    else: vm.witness = {'run-done'}
+    return None
+
+
 def jobs(ctx, tier):
+    from ..progen import kind_shapes, chunks
     mir = ctx.mir('dev')
     js = [Job(f'run/{n}', h_run, (mir, n), witness=['run-done'], fuel=20_000_000, weight=3) for n in all_templates()]
+    shapes = preparse(ctx, kind_shapes())
+    for k, ch in enumerate(chunks(shapes, 12)):
+        js.append(Job(f'kinds/{k}', h_kind, (mir, ch, False), witness=['run-done'], fuel=20_000_000, weight=12))
+    from ..progen import poetic_length_shapes
+    for k, ch in enumerate(chunks(preparse(ctx, poetic_length_shapes(40 if tier == 'quick' else 120)), 10)):
+        js.append(Job(f'poetic-lengths/{k}', h_kind, (mir, ch, False), witness=['run-done'], fuel=20_000_000, weight=12))
+    withstr = [sh for sh in shapes if any(k.startswith('s') for k in sh[1])]
+    for k, ch in enumerate(chunks(withstr, 4)):
+        js.append(Job(f'kinds-bounded-strings/{k}', h_kind, (mir, ch, True), witness=['run-done'], fuel=20_000_000, weight=12, str_mode='bounded'))
     return js
 
 
@@ -171,7 +237,9 @@ validate = C04.validate
 
 
 def replay(ctx, f):
-    name = (f.get('cex') or {}).get('template')
+    cex = f.get('cex') or {}
+    if 'program' in cex: return native_replay(ctx, cex['program'], f)
+    name = cex.get('template')
     t = all_templates().get(name)
     if t is None: return {'reproduced': None}
     return native_replay(ctx, t[0], f)
